@@ -4,7 +4,8 @@
 (* ladders of strikes (harness/drivers/pricer_run.py), judged with the     *)
 (* relations of Pricers.tla.  Prices are in quanta of 1e-7 spot, digitals  *)
 (* and discount factors in quanta of 1e-7.  H.tol = tolerance of the       *)
-(* relations that carry the series-truncation error (3e-5 spot), H.tolp =  *)
+(* relations that carry the series-truncation error (3e-5 spot), H.tola =  *)
+(* tolerance of the agreement between pricers (6e-6 spot), H.tolp =        *)
 (* tolerance of relations that hold by construction (parity, scalar =      *)
 (* vector, price() dispatch).                                              *)
 (***************************************************************************)
@@ -46,7 +47,7 @@ DispatchStep ==
     /\ ln' = ln + 1 /\ UNCHANGED <<tid, fin, pvars>>
 AgreeStep ==
     /\ More /\ E.e = "Agree"
-    /\ Judge(<< <<"PricersAgree", Pairs(E.rows, H.tol)>> >>)
+    /\ Judge(<< <<"PricersAgree", Pairs(E.rows, H.tola)>> >>)
     /\ ln' = ln + 1 /\ UNCHANGED <<tid, fin, pvars>>
 DensityStep ==
     /\ More /\ E.e = "Density"
